@@ -350,11 +350,13 @@ package solver
 //@   assert after-call (PBConstr).WeightSum#1 le: lem_isum_le(constr.Lits, constr.Weights, A, len(constr.Lits))
 //@   assert after-call NewPBClause#1 clause: holds(result, A) <==> prev(cholds(constr, A))
 //@   assert before-call NewPBClause#1 conv: lem_isum_psum(lits, constr.Lits, constr.Weights, A, len(lits))
+//@   assert body-end 3 step3: forall(k, 0, prev(rangei) + 1, lits[k] == ilit(constr.Lits[k]))
 //@   loop 1
 //@     invariant idx:   0 <= rangei && rangei <= len(constrs)
 //@     invariant own:   grown(pb.Units) && grown(pb.Clauses)
 //@     invariant shape: forall(k, rangei, len(constrs), cshape(constrs[k]) && fresh(constrs[k].Weights))
 //@     invariant dist:  forall(k, rangei, len(constrs), forall(m, rangei, len(constrs), k != m ==> arr(constrs[k].Weights) != arr(constrs[m].Weights)))
+//@     invariant distL: forall(k, rangei, len(constrs), forall(m, rangei, len(constrs), arr(constrs[k].Lits) != arr(constrs[m].Weights)))
 //@   loop 2
 //@     invariant idx:   0 <= rangei && rangei <= len(constr.Lits)
 //@     invariant own:   grown(pb.Units) && grown(pb.Clauses)
@@ -377,6 +379,7 @@ package solver
 //@   ensures  len:   len(result) <= 2
 //@   ensures  dist:  forall(k, 0, len(result), forall(m, 0, len(result), k != m ==> arr(result[k].Weights) != arr(result[m].Weights)))
 //@   ensures  own:   forall(k, 0, len(result), fresh(result[k].Weights) || arr(result[k].Weights) == arr(weights))
+//@   ensures  distLW: forall(k, 0, len(result), forall(m, 0, len(result), arr(result[k].Lits) != arr(result[m].Weights)))
 //@   assert before-call GtEq#1 copied: forall(k, 0, len(lits), lits2[k] == lits[k] && weights2[k] == weights[k]) && len(lits2) == len(lits) && len(weights2) == len(weights)
 //@   assert before-call GtEq#1 copySum: isum(lits2, weights2, A, len(lits2)) == isum(lits, weights, A, len(lits))
 //@   assert after-call LtEq#1 nonneg: lem_isum_nonneg(ge.Lits, ge.Weights, A, len(ge.Lits)) && lem_isum_nonneg(result.Lits, result.Weights, A, len(result.Lits))
